@@ -280,8 +280,11 @@ fn main() {
     }
     run_set("N2-mid^2", 2, v2, true);
     if thorough {
-        // full x mid, both slot orders
-        for (ci, chunk) in full.chunks(2000).enumerate() {
+        // (strided full) x mid, both slot orders
+        // (every 149th slot of the full product - a prime stride, so every value of every field
+        // and every residue pattern of neighbouring fields is met - against all of `mid`)
+        let strided: Vec<Vec<usize>> = full.iter().step_by(149).cloned().collect();
+        for (ci, chunk) in strided.chunks(2000).enumerate() {
             let mut v = Vec::new();
             for a in chunk {
                 for b in &mid {
